@@ -117,6 +117,15 @@ Proof.
 Qed.
 Print Assumptions C14_centre_translation_inverse.
 
+(* --- the contract of from_rotation_matrix is met by concrete answers of the library on concrete rotation
+       matrices (identity, an exact 180 degree turn, a quarter turn, a generic rational rotation); a total
+       rational instance is not constructed here (see docs/C14.md), the contract is sampled on every run *)
+Example C14_contract_instances :
+  let ok (q : quat) := rot q =m= rot q /\ mmul (rot q) (mtrans (rot q)) =m= mid /\ mdet (rot q) == 1 /\ ~ n2 q == 0 in
+  ok (mkQ 1 0 0 0) /\ ok (mkQ 0 1 0 0) /\ ok (mkQ 1 0 0 1) /\ ok (mkQ (1#3) (3#5) (4#5) (-2#7)) /\
+  rot (mkQ 0 1 0 0) =m= mkM 1 0 0  0 (-1) 0  0 0 (-1) /\ rot (mkQ 0 (-3) 0 0) =m= rot (mkQ 0 1 0 0).
+Proof. vm_compute. repeat split; discriminate. Qed.
+
 (* --- explicitly out of range: OpenMVG has no model for these *)
 Theorem C14_not_expressible : forall ps,
   representable (mkCam OPENCV_FISHEYE ps) = false /\ representable (mkCam RADIAL_FISHEYE ps) = false /\
